@@ -40,3 +40,38 @@ Definition alike (a b : nclass + nhdr) : Prop :=
   | _, _ => False
   end.
 Definition dims_key (k : nkey) : bool := match k with NKPorts | NKRows | NKColumns | NKZ0 => true | _ => false end.
+
+(* ---- for the header-order theorem: the part of a header line that does not look at the port count ------------------
+   [step3] stores what the line says without the two checks of the loader that depend on what came before
+   ('#:ports' only once / not after '#:z0'; '#:z0' holds as many values as there are ports) and without the side effect
+   of '#:z0' on the port count.  It is a proof device (every pair of different lines commutes under it), not a model of
+   the C code: the model is NpdLoad.hline_step. *)
+Definition keys (l : list (nkey * list (list N))) : list nkey := map fst l.
+Definition set_fz0 (h : nhdr) : nhdr :=
+  mknh (n_ports h) (n_rows h) (n_columns h) (n_frequencies h) (n_params h) (n_fprec h) (n_dprec h) true (n_z0 h).
+Definition set_z0v (h : nhdr) (l : list (xnum * xnum)) : nhdr :=
+  mknh (n_ports h) (n_rows h) (n_columns h) (n_frequencies h) (n_params h) (n_fprec h) (n_dprec h) (n_fz0 h) (Some l).
+Definition step3 (h : nhdr) (k : nkey) (f : list (list N)) : nclass + nhdr :=
+  match k with
+  | NKPorts => match nnint f with Some z => inr (set_nports h z) | None => inl NEBADMSG end
+  | NKZ0 =>
+      match f with
+      | [_; a] => if bytes_eqb (map upcase (cstr a)) txt_per_frequency then inr (set_fz0 h) else inl NEBADMSG
+      | _ => match z0_values (tl f) with Some l => inr (set_z0v h l) | None => inl NEBADMSG end
+      end
+  | _ => hline_step h k f
+  end.
+Fixpoint run3 (h : nhdr) (l : list (nkey * list (list N))) : nclass + nhdr :=
+  match l with
+  | [] => inr h
+  | (k, f) :: r => match step3 h k f with inl c => inl c | inr h' => run3 h' r end
+  end.
+(* equal but for the port count *)
+Definition eqm (a b : nhdr) : Prop := set_nports a 0 = set_nports b 0.
+
+(* where the port count comes from: the '#:ports' line if there is one, else both legacy lines *)
+Definition port_source (l : list (nkey * list (list N))) : list nkey :=
+  if existsb (fun k => match k with NKPorts => true | _ => false end) (keys l) then [NKPorts] else [NKRows; NKColumns].
+(* '#:z0' stands after the lines the port count comes from *)
+Definition z0_position_ok (l : list (nkey * list (list N))) : Prop :=
+  forall pre fz post, l = pre ++ (NKZ0, fz) :: post -> forall k, In k (port_source l) -> In k (keys pre).
